@@ -582,7 +582,9 @@ class World(object):
         if op == 'start':
             wf, inp, params = st[2], st[3], (st[4] if len(st) > 4 else {})
             import uuid
-            r = c.start_workflow(wf, '', str(uuid.UUID(int=self.rnd.getrandbits(128))), inp, **params)
+            params = dict(params)
+            ns = params.pop('__namespace', '')
+            r = c.start_workflow(wf, ns, str(uuid.UUID(int=self.rnd.getrandbits(128))), inp, **params)
             ev['result'] = r.id if hasattr(r, 'id') else (r or {}).get('id')
         elif op == 'pause':
             c.pause_workflow(st[2])
@@ -596,10 +598,10 @@ class World(object):
             raise ValueError(op)
 
     # -- definitions --------------------------------------------------------------------------------
-    def define(self, yaml_text, project='proj-A'):
+    def define(self, yaml_text, project='proj-A', namespace=''):
         from mistral.services import workflows as wf_service
         self.auth_context.set_ctx(mdb.ctx(project))
         try:
-            return wf_service.create_workflows(yaml_text)
+            return wf_service.create_workflows(yaml_text, namespace=namespace)
         finally:
             self.auth_context.set_ctx(None)
